@@ -23,7 +23,8 @@ RULE = ("case = (key, prefix, allow_unicode_keys, path); path in helper (check_k
         "bytes prefixes. Hypothesis: random keys/prefixes. Oracle: an independent predicate (encode, prepend, <=250 "
         "bytes, none of the 7 forbidden bytes); accepted => returned/transmitted key == prefix+encoded; rejected => "
         "MemcacheIllegalInputError - also with ignore_exc=True on Client and HashClient, whose key check sits outside the handlers that turn failures into misses (PooledClient's read wrappers swallow every exception under ignore_exc by design, so that combination is not generated). The client's data `encoding` option (ascii/utf-8/latin-1) is varied as well: it must not influence which keys are legal. Keys whose prefixed form is empty are excluded (C02 covers them). Server unreachable: twelve operations (stores, reads, multi-key) with legal and illegal keys while the server refuses connections or times out - an illegal key is still rejected with MemcacheIllegalInputError, before anything is written. Same-object histories: sequences of 2-3 validations on ONE client object, each token used as a key (client's prefix) or as a `stats` argument (validated with an empty prefix), through Client.check_key(key, prefix) and over the wire on Client/PooledClient/HashClient - the verdict may depend on the token and the prefix only, not on what the object validated before. Non-trivial: "
-        "the key contains a forbidden or non-ASCII byte, or prefix+key is within 2 bytes of 250. allow_unicode_keys is also given as a truthy / falsy non-bool (1, 'yes', 2, 1.0 / 0, '', None), which must behave as True / False. The ElastiCache subclass is a path like HashClient. Key objects of bytes / str subclasses with their own ==, != or truth value are judged by their content. One illegal key among 1 to 1000 (thorough 5000) legal ones in get_many / gets_many / delete_many / set_many, first, in the middle or last.")
+        "the key contains a forbidden or non-ASCII byte, or prefix+key is within 2 bytes of 250. allow_unicode_keys is also given as a truthy / falsy non-bool (1, 'yes', 2, 1.0 / 0, '', None), which must behave as True / False. The ElastiCache subclass is a path like HashClient. Key objects of bytes / str subclasses with their own ==, != or truth value are judged by their content. One illegal key among 1 to 1000 (thorough 5000) legal ones in get_many / gets_many / delete_many / set_many, first, in the middle or last."
+        + ' Illegal keys together with a value the serializer refuses (a raising serializer, pickle of a lambda) through every store command: the key is judged first.')
 MANIFEST = {
     "category": "exploration",
     "technique": "bounded-exhaustive enumeration over byte-class representatives and the full byte alphabet for short keys + Hypothesis random keys/prefixes, decided by an independent validity predicate (specification oracle) and by the wire key seen by a strict server model",
